@@ -481,17 +481,25 @@ func generate(thorough bool) []scenario {
 	ranks := []string{"asc", "desc"}
 	pals := []string{"keys", "ctrl", "ctrl3", "svc", "svc-sparse", "same", "mixed"}
 
-	// block A: n <= 4, every shape x timing x rank x bump position x palette, and x deactivation position (mixed palette)
+	// block A: n <= 4 events. n <= 3 and thorough: every shape x timing x rank x bump position x palette, and x deactivation
+	// position (mixed palette). Quick tier, n = 4: the bump dimension is combined with rank asc and three palettes only.
 	for n := 1; n <= 4; n++ {
 		for _, sh := range shapes(n, n) {
 			for _, tm := range timings {
 				for _, rk := range ranks {
 					for bump := 0; bump < n; bump++ {
+						full := n <= 3 || thorough || bump == 0
+						if !full && rk != "asc" {
+							continue
+						}
 						for _, p := range pals {
+							if !full && p != "mixed" && p != "svc-sparse" && p != "ctrl3" {
+								continue
+							}
 							d := dims{tm, rk, bump, p, 0}
 							add(fmt.Sprintf("A%d%s/%s", n, shapeName(sh), d), oneDID(0, 0, sh, d))
 						}
-						for de := 1; de < n; de++ {
+						for de := 1; de < n && full; de++ {
 							d := dims{tm, rk, bump, "mixed", de}
 							add(fmt.Sprintf("A%d%s/%s", n, shapeName(sh), d), oneDID(0, 0, sh, d))
 						}
@@ -500,22 +508,39 @@ func generate(thorough bool) []scenario {
 			}
 		}
 	}
-	// block B: n = 5, every shape (315) x three timing/rank combinations, mixed palette; quick tier: no bump, no deactivation
-	combos := []dims{{"inc", "asc", 0, "mixed", 0}, {"eq", "desc", 0, "mixed", 0}, {"dec", "asc", 0, "mixed", 0}}
+	// block B: n = 5, every shape (315), mixed palette, no bump, no deactivation; timing/rank: quick eq/desc (+ inc/asc on the
+	// 36 head-based shapes), thorough eq/desc, inc/asc and dec/asc on every shape
 	for _, sh := range shapes(5, 5) {
+		combos := []dims{{"eq", "desc", 0, "mixed", 0}}
+		if thorough {
+			combos = append(combos, dims{"inc", "asc", 0, "mixed", 0}, dims{"dec", "asc", 0, "mixed", 0})
+		}
 		for _, d := range combos {
 			add(fmt.Sprintf("B5%s/%s", shapeName(sh), d), oneDID(0, 0, sh, d))
 		}
 	}
-	// block C: n = 5, head-based shapes x deactivation at every position x {eq/asc, inc/desc}; ctrl3 and svc-sparse palettes
+	// block C: n = 5, head-based shapes (36) x deactivation at every position x timing/rank (quick 1, thorough 2);
+	// palettes ctrl3, svc-sparse (thorough also svc); quick: inc/asc mixed
 	for _, sh := range headShapes(5) {
 		for de := 1; de < 5; de++ {
-			for _, d := range []dims{{"eq", "asc", 0, "mixed", de}, {"inc", "desc", 0, "mixed", de}} {
+			cd := []dims{{"eq", "asc", 0, "mixed", de}}
+			if thorough {
+				cd = append(cd, dims{"inc", "desc", 0, "mixed", de})
+			}
+			for _, d := range cd {
 				add(fmt.Sprintf("C5%s/%s", shapeName(sh), d), oneDID(0, 0, sh, d))
 			}
 		}
-		for _, p := range []string{"ctrl3", "svc-sparse", "svc"} {
+		cp := []string{"ctrl3", "svc-sparse"}
+		if thorough {
+			cp = append(cp, "svc")
+		}
+		for _, p := range cp {
 			d := dims{"eq", "asc", 0, p, 0}
+			add(fmt.Sprintf("C5%s/%s", shapeName(sh), d), oneDID(0, 0, sh, d))
+		}
+		if !thorough {
+			d := dims{"inc", "asc", 0, "mixed", 0}
 			add(fmt.Sprintf("C5%s/%s", shapeName(sh), d), oneDID(0, 0, sh, d))
 		}
 	}
